@@ -250,6 +250,7 @@ var (
 func TestCheck(t *testing.T) {
 	env := report.FromEnv()
 	rep := env.New("C08")
+	defer rep.Guard(env)
 	rep.Assumptions = []string{
 		"handlers are driven in-process with httptest (no sockets, no TLS)",
 		"ambiguous inputs (content type with parameters or different case, a body that is JSON of the wrong shape, a malformed grant under a capability name that is not consulted) may be accepted or rejected; the oracle then only requires the respective consequences",
